@@ -473,6 +473,7 @@ const preambleFixed = `(set-option :produce-models true)
 func (o *Obligation) SMT(withModel bool) string {
 	vc := o.vc
 	var body strings.Builder
+	var seqDiffs []string
 	items := vc.items[:o.itemPos]
 	seeds := map[string]bool{}
 	o.Guard.symbols(seeds)
@@ -547,6 +548,11 @@ func (o *Obligation) SMT(withModel bool) string {
 				}
 				d := fmt.Sprintf("seqdiff!%d", n)
 				n++
+				// witnesses of differences with a sequence mentioned in the goal are instantiation points for the
+				// universal assumptions (pointwise loop invariants)
+				if len(seqDiffs) < 12 && (strings.Contains(o.Goal.String(), a.String()) || strings.Contains(o.Goal.String(), b.String())) {
+					seqDiffs = append(seqDiffs, d)
+				}
 				body.WriteString("(declare-const " + d + " (_ BitVec 64))\n")
 				body.WriteString(fmt.Sprintf("(assert (or (= %s %s) (not (= (bseq.len %s) (bseq.len %s))) (and (bvsle #x0000000000000000 %s) (bvslt %s (bseq.len %s)) (not (= (bseq.at %s %s) (bseq.at %s %s))))))\n",
 					a, b, a, b, d, d, a, a, d, b, d))
@@ -566,6 +572,31 @@ func (o *Obligation) SMT(withModel bool) string {
 	// a consequence of the negated goal and the assumptions, so validity is unchanged.
 	if o.ExpectSat || !hasQuantAny(o.Goal, items, keep) {
 		body.WriteString("(assert (not " + o.Goal.String() + "))\n")
+		if !o.ExpectSat && len(seqDiffs) > 0 {
+			n := 0
+			for i, it := range items {
+				if !keep[i] || it.Assert == nil || n > 60 {
+					continue
+				}
+				f := it.Assert
+				var pre []*Term
+				for f.Op == "=>" && len(f.Args) == 2 {
+					pre = append(pre, f.Args[0])
+					f = f.Args[1]
+				}
+				if f.Op != "forall" || len(f.QVars) != 1 || f.QVars[0][1] != BV(64) {
+					continue
+				}
+				for _, d := range seqDiffs {
+					inst := substT(f.Args[0], f.QVars[0][0], Sym(d, BV(64)))
+					for k := len(pre) - 1; k >= 0; k-- {
+						inst = Implies(pre[k], inst)
+					}
+					body.WriteString("(assert " + inst.String() + ")\n")
+					n++
+				}
+			}
+		}
 	} else {
 		type skc struct{ name, sort string }
 		nsk := 0
